@@ -106,7 +106,8 @@ class SimA:
 
     def key(self):
         c = self.w.c
-        rows = tuple((d, seq) for (_, d, seq, _m) in journal_rows(self.w.j))
+        from props.c05 import _row_class
+        rows = tuple((d, seq, _row_class(m) if d == 1 else None) for (_, d, seq, m) in journal_rows(self.w.j))
         return (self.root, conn_key(c), rows, self.peer_seq, fresh_counters(self.path, self.w.T, self.w.S))
 
     def apply(self, ev):
